@@ -27,7 +27,10 @@ RULE = (
     "outside the search path, via Environment.get_template / get_template_async and via an include tag, for "
     "names built from the tree's own paths mutated with separators, '.', '..', absolute prefixes, NUL/control "
     "characters, unicode and lone surrogates, suffix dropping under every ext setting, 255/256/300-byte "
-    "components and >=4096-byte paths. Non-trivial: the name is not a plain hit of an ordinary file (it carries a "
+    "components and >=4096-byte paths, traversal/absolute names spelled with compatibility characters. stream cache: "
+    "CachingFileSystemLoader asked repeatedly (6..15 steps) while files are replaced by other files, inside links, "
+    "links to decoys, directories, or removed, with equal or different mtimes, auto_reload on/off, capacity 1..3, "
+    "sync or async, against the model's cachedRun. Non-trivial: the name is not a plain hit of an ordinary file (it carries a "
     "mutation, or goes through a link, or misses) for fsl/pkg; the path crosses a link or fails for fsprim; "
     "the string has a root, a dot component or a suffix decision for pathlib."
 )
@@ -41,13 +44,14 @@ TRUSTED_BASE = [
 ASSUMPTIONS = [
     "PackageLoader is modelled for a regular package on the file system (importlib.resources.files() is a PosixPath); zip/namespace packages are outside the model",
     "ext settings are those pathlib accepts as a suffix (FileSystemLoader's constructor enforces it; PackageLoader's does not, an invalid ext is a configuration error outside the property)",
+    "the caching theorems take namespace_key = '' (cache key = name) and one mode (sync or async) per loader instance; they promise containment of cached answers, not freshness (C23 covers transparency)",
     "without reject_symlinks a link inside the search path may legitimately lead out of it (the property only forbids it with rejection enabled); containment is then lexical (theorem fsl_resolved_inside) and physical only for link-free search directories (fsl_contents_inside_linkfree)",
     "permissions (EACCES), non-UTF-8 file contents and files changing during a load are outside the model; the sandbox has none",
     "POSIX only",
 ]
 MANIFEST = {
     "technique": "Lean 4 proof over all strings and all finite file systems (pathlib parsing, loader decision logic, link-following path walk) + differential correspondence on real sandbox trees with decoys and symlinks",
-    "text": "Theorems fsl_resolved_inside / pkg_resolved_inside (any returned path is search_dir/rel with rel non-empty, free of '..', '.', '' and '/'), fsl_contents_inside_rejecting (with reject_symlinks the bytes returned are those of a regular file that sits, link-free, below the directory the search path canonically denotes), *_contents_inside_linkfree (same without the flag when the search directory contains no links), fsl_only_not_found / pkg_only_not_found (the only exception is TemplateNotFoundError — ENAMETOOLONG, NUL, unencodable names, symlink loops included) hold for every name string and every finite file system; the pre-fix code is kept as Old.* with kernel-decided counter-examples (absolute name escapes the package, '' raises ValueError, a 256-byte name raises OSError).",
+    "text": "Deepening: ordinary_names_load / pkg_ordinary_names_load (completeness: an ordinary name whose file exists under a search directory loads exactly that file, first directory that has it), name_used_verbatim / pkg_name_used_verbatim (the returned path is search_dir + exactly Path(name)'s components, ext appended to a suffix-less last one: no folding or normalisation), str_round_trip / returned_name_parses_inside (Path(str(p)) = p, PackageLoader's joinpath(str(..)) modelled as written), cached_answers_are_past_answers / cached_contents_were_inside (CachingFileSystemLoader over any sequence of file-system changes only serves what get_source returned for the same name earlier; outside bytes are never served, staleness is possible and shown). Theorems fsl_resolved_inside / pkg_resolved_inside (any returned path is search_dir/rel with rel non-empty, free of '..', '.', '' and '/'), fsl_contents_inside_rejecting (with reject_symlinks the bytes returned are those of a regular file that sits, link-free, below the directory the search path canonically denotes), *_contents_inside_linkfree (same without the flag when the search directory contains no links), fsl_only_not_found / pkg_only_not_found (the only exception is TemplateNotFoundError — ENAMETOOLONG, NUL, unencodable names, symlink loops included) hold for every name string and every finite file system; the pre-fix code is kept as Old.* with kernel-decided counter-examples (absolute name escapes the package, '' raises ValueError, a 256-byte name raises OSError).",
     "note": "Trusted: Lean kernel (axioms propext/Classical.choice/Quot.sound only), the hand model of pathlib 3.12 and of the kernel path walk (sampled by the pathlib and fsprim streams), the correspondence harness; no TOCTOU; PackageLoader only for file-system packages. Four fix: commits in the tree under test (FSL ENAMETOOLONG, PackageLoader absolute / empty name / ENAMETOOLONG).",
 }
 
@@ -69,6 +73,8 @@ def build_tree(dirpath: str, node: dict, sb: str):
             with open(p, "w", encoding="utf-8") as fd:
                 # a package's __init__.py must stay importable: it is an empty decoy
                 fd.write("" if name == "__init__.py" else CONTENT_PREFIX + str(ch["f"]))
+            if "t" in ch:
+                os.utime(p, (ch["t"], ch["t"]))
         elif "l" in ch:
             os.symlink(ch["l"].replace("$SB", sb), p)
         else:
@@ -434,6 +440,18 @@ def lexically_inside(path: str, bases: list) -> bool:
     return False
 
 
+def used_verbatim(path: str, bases: list, name: str, ext) -> bool:
+    """the path a loader returns is a search directory followed by exactly the components pathlib sees in the
+    name (ext appended to the last one when it has no suffix): no case folding, no unicode normalisation"""
+    from pathlib import PurePosixPath
+
+    pp = PurePosixPath(path).parts
+    want = list(PurePosixPath(name).parts)
+    if want and ext and not PurePosixPath(name).suffix:
+        want[-1] += ext
+    return any(pp[: len(bp)] == bp and list(pp[len(bp):]) == want for bp in (PurePosixPath(b).parts for b in bases))
+
+
 _PKG_COUNTER = [0]
 
 
@@ -498,7 +516,7 @@ class LoaderStream(Stream):
                 bases = [b if b.startswith("/") else os.path.join(sb, b) for b in self.bases(case, sb, pkg)]
                 allowed = allowed_ids(bases, bool(case.get("rej")))
                 checks = []
-                for r in results:
+                for r, real_name in zip(results, names):
                     if "ok" in r and r["ok"][0] is not None:
                         p = r["ok"][0]
                         ap = p if p.startswith("/") else os.path.join(sb, p)
@@ -508,7 +526,7 @@ class LoaderStream(Stream):
                         except (OSError, ValueError):
                             same = False
                         real = any(_under(os.path.realpath(ap), os.path.realpath(b)) for b in bases)
-                        checks.append([lexically_inside(ap, bases), same, real])
+                        checks.append([lexically_inside(ap, bases), same, real, used_verbatim(ap, bases, real_name, case["ext"])])
                     else:
                         checks.append(None)
             finally:
@@ -555,7 +573,9 @@ class LoaderStream(Stream):
                 if cid not in allowed:
                     return (f"{self.kind}|outside|{nc}", f"name {name[:120]!r} returned content {cid!r} of {path!r}, not a file inside the search path (reject_symlinks={case.get('rej')})")
                 if which == "results" and obs["checks"][i] is not None:
-                    lex, same, real = obs["checks"][i]
+                    lex, same, real, verb = obs["checks"][i]
+                    if not verb and lex:
+                        return (f"{self.kind}|name-not-used-verbatim|{nc}", f"name {name[:120]!r} resolved to {path!r}: not the components pathlib sees in the name")
                     if not lex:
                         return (f"{self.kind}|path-not-under-search-dir|{nc}", f"name {name[:120]!r} resolved to {path!r}")
                     if not same:
@@ -597,7 +617,7 @@ class LoaderStream(Stream):
 class FslStream(LoaderStream):
     name = "fsl"
     kind = "fsl"
-    sizes = (180, 2000)
+    sizes = (150, 2000)
 
     def gen_case(self, rng, i):
         tg = TreeGen(rng)
@@ -988,5 +1008,177 @@ class FsPrimStream(Stream):
                 yield {"tree": case["tree"], "paths": [p]}
 
 
+# ---------------------------------------------------------------------------------------------
+# the caching loader over a file system that changes between requests
+# ---------------------------------------------------------------------------------------------
+def mtime_table(tree: dict, sb: str) -> list:
+    out = []
+
+    def rec(node, comps):
+        for n, ch in node["d"].items():
+            if "f" in ch:
+                out.append([[cps(c) for c in comps + [n]], ch.get("t", 0)])
+            elif "d" in ch:
+                rec(ch, comps + [n])
+
+    rec(tree, [c for c in sb.split("/") if c])
+    return out
+
+
+def tree_set(tree: dict, path: str, node):
+    """pure update of a spec tree: put `node` (or delete when None) at the relative `path`"""
+    import copy
+
+    t = copy.deepcopy(tree)
+    parts = path.split("/")
+    d = t
+    for c in parts[:-1]:
+        d = d["d"][c]
+    if node is None:
+        d["d"].pop(parts[-1], None)
+    else:
+        d["d"][parts[-1]] = node
+    return t
+
+
+class CacheStream(Stream):
+    """CachingFileSystemLoader asked repeatedly while files are replaced (by other files, by links that stay
+    inside, by links to decoys, by directories, or removed) with equal or different mtimes, auto-reload on/off,
+    capacities 1..3, sync or async — against `cachedRun`. Direct oracle: no answer is ever a content that was
+    not inside the search directories at this or an earlier request; only TemplateNotFoundError is raised."""
+
+    name = "cache"
+
+    def cases(self, ctx):
+        self.parallel = ctx.tier == "thorough"
+        rng = ctx.rng_for("cache")
+        out = []
+        for _ in range(ctx.scale(50, 1000)):
+            nid = [1]
+
+            def f(t=None):
+                nid[0] += 1
+                return {"f": nid[0], "t": t if t is not None else rng.choice([1000, 2000, 3000])}
+
+            tree = {"d": {"root": {"d": {"a.txt": f(), "b.txt": f(), "noext": f(), "sub": {"d": {"c.txt": f()}}}},
+                          "root2": {"d": {"a.txt": f(), "only2.txt": f()}},
+                          "outside": {"d": {"secret.txt": f(), "s2.txt": f(1000), "dir": {"d": {"c.txt": f()}}}}}}
+            targets = ["root/a.txt", "root/b.txt", "root/sub/c.txt", "root/sub", "root/noext", "root2/only2.txt", "outside/secret.txt"]
+            names = ["a.txt", "a.txt", "b.txt", "./a.txt", "sub/c.txt", "noext", "only2.txt", "sub//c.txt", "a", "missing.txt"]
+            steps = []
+            for _ in range(rng.range(6, 14)):
+                if rng.chance(55):
+                    steps.append({"op": "load", "name": rng.choice(names)})
+                else:
+                    path = rng.choice(targets)
+                    up = "../" * (path.count("/"))
+                    node = rng.choice([f(), f(1000), f(2000), {"l": up + "outside/secret.txt"}, {"l": up + "outside/s2.txt"},
+                                       {"l": "b.txt"}, {"l": "$SB/outside/secret.txt"}, {"l": up + "outside/dir"}, {"d": {}}, None,
+                                       {"l": up + "root2/only2.txt"}])
+                    steps.append({"op": "set", "path": path, "node": node})
+            steps.append({"op": "load", "name": "a.txt"})
+            out.append({"tree": tree, "search": rng.choice([["$SB/root"], ["$SB/root"], ["$SB/root", "$SB/root2"], ["$SB/rootlnk"]]),
+                        "ext": rng.choice([None, None, ".txt"]), "rej": rng.chance(60), "auto": rng.chance(60), "cap": rng.range(1, 3),
+                        "mode": rng.choice(["sync", "async"]), "steps": steps})
+        return out
+
+    @staticmethod
+    def start_tree(case):
+        t = dict(case["tree"]["d"])
+        t["rootlnk"] = {"l": "root"}
+        return {"d": t}
+
+    def impl(self, case):
+        import asyncio
+
+        from liquid import CachingFileSystemLoader
+        from liquid import Environment
+        from liquid import FileSystemLoader
+
+        with Sandbox(self.start_tree(case)) as box:
+            sb = box.sb
+            bases = [s.replace("$SB", sb) for s in case["search"]]
+            kw = {"ext": case["ext"], "reject_symlinks": case["rej"]}
+            env = Environment(loader=CachingFileSystemLoader(bases, auto_reload=case["auto"], capacity=case["cap"], **kw))
+            plain = Environment(loader=FileSystemLoader(bases, **kw))
+            loop = asyncio.new_event_loop() if case["mode"] == "async" else None
+            results, allowed_hist, stale = [], [], 0
+            allowed: set = set()
+            try:
+                for st in case["steps"]:
+                    if st["op"] == "load":
+                        allowed |= set(allowed_ids(bases, case["rej"]))
+                        r = _load(env, st["name"], case["mode"], "direct", loop)
+                        fresh = _load(plain, st["name"], case["mode"], "direct", loop)
+                        stale += int(r != fresh)
+                        results.append(r)
+                        allowed_hist.append(sorted(allowed))
+                    else:
+                        p = os.path.join(sb, st["path"])
+                        parent = os.path.dirname(p)
+                        if os.path.realpath(parent) != parent or not os.path.isdir(parent):
+                            continue  # the parent is no longer a plain directory: the step does not apply
+                        if os.path.islink(p) or os.path.isfile(p):
+                            os.remove(p)
+                        elif os.path.isdir(p):
+                            shutil.rmtree(p)
+                        if st["node"] is not None and os.path.isdir(os.path.dirname(p)):
+                            build_tree(os.path.dirname(p), {"d": {os.path.basename(p): st["node"]}}, sb)
+            finally:
+                if loop is not None:
+                    loop.run_until_complete(loop.shutdown_default_executor())
+                    loop.close()
+            return {"sb": sb, "results": results, "allowed": allowed_hist, "stale": stale}
+
+    def line_obs(self, case, obs):
+        sb = obs["sb"]
+        tree = self.start_tree(case)
+        steps = []
+        for st in case["steps"]:
+            if st["op"] == "load":
+                steps.append([model_fs(tree, sb), mtime_table(tree, sb), cps(st["name"])])
+            else:
+                parent = tree
+                ok = True
+                for c in st["path"].split("/")[:-1]:
+                    parent = parent["d"].get(c) if "d" in parent else None
+                    if parent is None or "d" not in parent:
+                        ok = False
+                        break
+                if ok:
+                    tree = tree_set(tree, st["path"], st["node"])
+        cfg = {"search": [cps(s.replace("$SB", sb)) for s in case["search"]], "ext": None if case["ext"] is None else cps(case["ext"]), "rej": case["rej"]}
+        return ["c22_cache", cfg, case["auto"], case["cap"], steps]
+
+    def compare_view(self, case, obs):
+        return obs["results"]
+
+    def canon_model(self, case, mobs):
+        if not isinstance(mobs, list):
+            return mobs
+        return [({"ok": [_s(r["ok"][0]), r["ok"][1]]} if isinstance(r, dict) and "ok" in r else r) for r in mobs]
+
+    def oracle(self, case, obs):
+        if not isinstance(obs, dict) or "allowed" not in obs:
+            return None
+        for r, allowed in zip(obs["results"], obs["allowed"]):
+            if "err" in r:
+                if r["err"] != "TemplateNotFoundError":
+                    return (f"cache|raises-{r['err']}", f"a request through the caching loader raised {r['err']}")
+            elif r["ok"][1] not in allowed:
+                return ("cache|outside", f"the caching loader returned content {r['ok'][1]!r} of {r['ok'][0]!r}, never inside the search path so far (reject_symlinks={case['rej']})")
+        return None
+
+    def nontrivial(self, case, obs):
+        return any(st["op"] == "set" for st in case["steps"])
+
+    def tags(self, case, obs):
+        return ["auto" if case["auto"] else "noauto", "rej" if case["rej"] else "norej", case["mode"], "stale" if obs["stale"] else "fresh"]
+
+    def shrink_candidates(self, case):
+        for i in range(len(case["steps"])):
+            yield {**case, "steps": case["steps"][:i] + case["steps"][i + 1:]}
+
+
 def streams(ctx):
-    return [PathlibStream(), SuffixStream(), JoinStream(), FsPrimStream(), FslStream(), PkgStream()]
+    return [PathlibStream(), SuffixStream(), JoinStream(), FsPrimStream(), FslStream(), PkgStream(), CacheStream()]
